@@ -268,6 +268,8 @@ func (update *Update) compress() *compressedUpdate {
 }
 
 func (update *Update) uncompress(c *compressedUpdate) {
+	// (the update may have been used before: what was memoised for the old content is void)
+	update.product, update.productFrom = nil, 0
 	update.SignedAccumulator = c.SignedAccumulator
 	if c.E != nil {
 		update.Events = c.E.Events
